@@ -71,6 +71,10 @@ pub struct Cfg {
     /// alphabet extension "other entry points and lifecycles": handle C (CachingSession execute / execute_iter / batch), manual
     /// paging (execute_single_page), the user preparing the statement again, UNPREPARED twice in a row
     pub entry: bool,
+    /// with `late`: the column-less PREPARED carries the statement's REAL metadata id, and the Rows answer that later attaches the
+    /// columns announces them under that SAME id (ScyllaDB's LIST ROLES OF); without it the PREPARED carries a placeholder id
+    /// and the Rows answer announces columns together with a NEW id
+    pub same_id: bool,
 }
 impl Cfg {
     pub fn name(&self) -> String {
@@ -80,6 +84,9 @@ impl Cfg {
         }
         if self.entry {
             n.push_str(" entry=1");
+        }
+        if self.same_id {
+            n.push_str(" same_id=1");
         }
         n
     }
@@ -91,7 +98,7 @@ impl Cfg {
         self.ext || self.mixed
     }
     pub fn to_json(&self) -> serde_json::Value {
-        serde_json::json!({"ext": self.ext, "cached": self.cached, "nodes": self.nodes, "late": self.late, "alpha": self.alpha, "mixed": self.mixed, "ts": self.ts, "entry": self.entry})
+        serde_json::json!({"ext": self.ext, "cached": self.cached, "nodes": self.nodes, "late": self.late, "alpha": self.alpha, "mixed": self.mixed, "ts": self.ts, "entry": self.entry, "same_id": self.same_id})
     }
     pub fn from_json(v: &serde_json::Value) -> Cfg {
         Cfg {
@@ -103,6 +110,7 @@ impl Cfg {
             mixed: v["mixed"].as_bool().unwrap_or(false),
             ts: v["ts"].as_u64().unwrap_or(0) as u8,
             entry: v["entry"].as_bool().unwrap_or(false),
+            same_id: v["same_id"].as_bool().unwrap_or(false),
         }
     }
 }
@@ -441,6 +449,7 @@ pub fn describe_mid(m: &[u8]) -> String {
 
 pub struct NodeModel {
     pub late: bool,
+    pub same_id: bool,
     pub nodes: Vec<NodeM>,
     pub trace: Vec<Rec>,
     /// armed by a Paged event: (node, 1 evict / 2 alter) applied right after the node answered page 0
@@ -480,7 +489,7 @@ impl NodeModel {
                     _ => vec![],
                 };
                 let with_cols = !cols.is_empty();
-                let mid = ctx.metadata_id.then(|| if with_cols { meta_id(stmt, v) } else { empty_meta_id() });
+                let mid = ctx.metadata_id.then(|| if with_cols || (stmt == S && self.same_id) { meta_id(stmt, v) } else { empty_meta_id() });
                 self.trace.push(Rec { node: n, conn: ctx.conn, req: Req::Prepare { stmt }, resp: Resp::Prepared { stmt, alt, version: v, with_cols, mid: mid.clone() } });
                 Some(
                     Response::Prepared(PreparedResult {
@@ -717,7 +726,7 @@ impl World {
 
     fn new_inner(cfg: Cfg) -> Result<World, String> {
         let rt = shared_runtime();
-        let model = Arc::new(Mutex::new(NodeModel { late: cfg.late, nodes: vec![NodeM::default(); cfg.nodes], trace: Vec::new(), mid: None, drop_after_prepare: None, malformed: Vec::new() }));
+        let model = Arc::new(Mutex::new(NodeModel { late: cfg.late, same_id: cfg.same_id, nodes: vec![NodeM::default(); cfg.nodes], trace: Vec::new(), mid: None, drop_after_prepare: None, malformed: Vec::new() }));
         let m2 = model.clone();
         let built = rt.block_on(async move {
             let mut b = MockCluster::builder();
@@ -785,12 +794,15 @@ impl World {
                 }
             }
         }
+        if cfg.same_id && !cfg.late {
+            return Err("same_id needs late = true".into());
+        }
         if cfg.mixed && (cfg.nodes != 2 || cfg.late) {
             return Err("mixed needs nodes = 2 and late = false".into());
         }
         let first = RefH {
             usable: if cfg.late { None } else { Some(0) },
-            last_id: cfg.any_ext().then(|| if cfg.late { empty_meta_id() } else { meta_id(S, 0) }),
+            last_id: cfg.any_ext().then(|| if cfg.late && !cfg.same_id { empty_meta_id() } else { meta_id(S, 0) }),
             prep_version: 0,
             id_unknown: cfg.mixed,
         };
@@ -1648,7 +1660,7 @@ impl World {
                         // the resend follows this caller's own re-PREPARE, which announced the node's current columns
                         allowed = vec![Some(v)];
                     }
-                    self.check_presented(r, &allowed, &[before.last_id.clone(), ext_node.then(empty_meta_id)], before.id_unknown)?;
+                    self.check_presented(r, &allowed, &[before.last_id.clone(), ext_node.then(empty_meta_id), (ext_node && self.cfg.same_id).then(|| meta_id(S, v))], before.id_unknown)?;
                 }
                 if matches!(r.resp, Resp::Rows { changed: true, .. }) {
                     announced_here = true;
@@ -1880,7 +1892,8 @@ impl World {
             if !shown.is_empty() {
                 return viol("prepare:metadata-from-nowhere", format!("PREPARED carried no result columns but the new handle shows {shown:?}"));
             }
-            RefH { usable: None, last_id: self.cfg.any_ext().then(empty_meta_id), prep_version: versions[0], id_unknown: false }
+            let placeholder = if self.cfg.same_id { meta_id(S, versions[0]) } else { empty_meta_id() };
+            RefH { usable: None, last_id: self.cfg.any_ext().then_some(placeholder), prep_version: versions[0], id_unknown: false }
         } else {
             let Some(v) = versions.iter().copied().find(|v| col_names(*v) == shown) else {
                 return viol("prepare:metadata-from-nowhere", format!("the new handle shows columns {shown:?}, no node announced those (node versions {versions:?})"));
